@@ -17,7 +17,7 @@ from .values import *  # noqa: F401,F403
 from .values import term_of
 
 
-SPEC_FORMS = {"old", "implies", "iff", "forall_in", "exists_in", "ite", "fresh_clock", "typeis"}
+SPEC_FORMS = {"old", "implies", "iff", "forall_in", "exists_in", "ite", "fresh_clock", "typeis", "flag"}
 
 
 class GhostNS(V):
@@ -97,6 +97,10 @@ class ContractInterp(Interp):
             if n == "forall_in":
                 return VBool(z3.And(*out) if out else z3.BoolVal(True))
             return VBool(z3.Or(*out) if out else z3.BoolVal(False))
+        if n == "flag":
+            nm = ast.literal_eval(e.args[0])
+            v = self.st.ghost.get(nm)
+            return v if v is not None else VBool(False)
         if n == "typeis":
             v = self.eval(e.args[0], fr)
             want = ast.literal_eval(e.args[1])
@@ -329,6 +333,8 @@ class ContractInterp(Interp):
                     st.assume(self.spec_bool(ex, env2, old))
                 raise PyRaise(exc)
         self.havoc(c.modifies, env)
+        for nm, (t, _w) in c.fresh.items():
+            env[nm] = mk_sym(st, self.tenv, t, st.fresh_name(nm))
         for lst, ev in c.effects:
             self.emit(lst, self.eval_spec_expr(ev, env, old))
         rt = self.result_type_for(c)
